@@ -28,8 +28,11 @@
 //!                  (Model/BuildBytes.lean on Model/SaveBytes.lean): numbering, page dictionary insert order,
 //!                  framing of every object, cross-reference stream object, `startxref` trailer. What a page
 //!                  contains travels in primitive form, obtained from the library's own `to_primitive` of the
-//!                  fields (boxes, rotation, resources) and `serialize_ops`; at most one font and one
-//!                  graphics state per page (`HashMap` order is not reproducible beyond that)
+//!                  fields (boxes, rotation, resources) and `serialize_ops`. `Resources` keeps fonts and graphics
+//!                  states in `HashMap`s, whose iteration order differs between two equal maps: the comparison is
+//!                  modulo the order of the entries inside `/Font` and `/ExtGState` — that order is read from the
+//!                  output with the independent reader and the entries of the model's input are put in it (same
+//!                  keys required); everything else, offsets and lengths behind them included, is predicted
 //! More correspondence (the width decision itself, `byte_len`, is private: it is reached through
 //! `XRefTable::write_stream`)
 //!   c10.bytelen    tables whose largest first / second field is n: every n of an initial segment, every
@@ -877,11 +880,11 @@ fn steer_targets(thorough: bool) -> Vec<usize> {
 /// `XRefTable::write_stream` on tables with chosen fields: the width decision and the row bytes
 /// the model's request for one document: every payload in primitive form, from the library's own
 /// `to_primitive` of the builder's fields
-fn bytes_request(pages: &[GenPage], info: &Option<GenInfo>) -> Result<String, String> {
+fn bytes_request(pages: &[GenPage], info: &Option<GenInfo>, orders: &BTreeMap<usize, Vec<(String, Vec<String>)>>) -> Result<String, String> {
     let val = |p: &Primitive| -> Val { pval_to_val(&from_prim(p, &NoResolve), false) };
     let entries = |es: Vec<(String, Val)>| -> String { show_val(&Val::Dict(es.into_iter().map(|(k, v)| (k.into_bytes(), v)).collect())) };
     let mut ps = vec![];
-    for p in pages {
+    for (k, p) in pages.iter().enumerate() {
         let pb = page_builder(p)?;
         let other: Vec<(String, Val)> = pb.other.iter().map(|(k, v)| (k.as_str().to_string(), val(v))).collect();
         let mut boxes = vec![];
@@ -900,8 +903,27 @@ fn bytes_request(pages: &[GenPage], info: &Option<GenInfo>) -> Result<String, St
             }
         }
         let res = pb.resources.to_primitive(&mut NoUpdate).map_err(|e| format!("resources: {}", e))?;
+        let mut res = from_prim(&res, &NoResolve);
+        if let (Some(ord), PVal::Dict(entries)) = (orders.get(&k), &mut res) {
+            for (name, keys) in ord {
+                if let Some((_, PVal::Dict(sub))) = entries.iter_mut().find(|(n, _)| n == name) {
+                    let mut have: Vec<&String> = sub.iter().map(|(n, _)| n).collect();
+                    let mut want: Vec<&String> = keys.iter().collect();
+                    have.sort();
+                    want.sort();
+                    if have == want {
+                        let mut sorted = vec![];
+                        for key in keys {
+                            let pos = sub.iter().position(|(n, _)| n == key).unwrap();
+                            sorted.push(sub.remove(pos));
+                        }
+                        *sub = sorted;
+                    }
+                }
+            }
+        }
         let data = pdf::content::serialize_ops(&pb.ops).map_err(|e| format!("ops: {}", e))?;
-        ps.push(format!("{}~{}~{}~{}~{}", entries(other), entries(boxes), entries(rest), show_val(&val(&res)), crate::driver::hex(&data)));
+        ps.push(format!("{}~{}~{}~{}~{}", entries(other), entries(boxes), entries(rest), show_val(&pval_to_val(&res, false)), crate::driver::hex(&data)));
     }
     let inf = match info {
         Some(i) => show_val(&val(&info_dict(i).to_primitive(&mut NoUpdate).map_err(|e| format!("info: {}", e))?)),
@@ -921,7 +943,7 @@ fn bytes_stream(driver: &Driver, seed: u64, thorough: bool, replay: Option<&Valu
             let c = r["case"].as_u64().unwrap_or(0);
             (c, c + 1)
         }
-        None => (0, if thorough { 6000 } else { 300 }),
+        None => (0, if thorough { 6000 } else { 240 }),
     };
     let seed = replay.and_then(|r| r["seed"].as_u64()).unwrap_or(seed);
     for case in from..to {
@@ -930,15 +952,29 @@ fn bytes_stream(driver: &Driver, seed: u64, thorough: bool, replay: Option<&Valu
         if case % 50 == 7 {
             c.pages = (0..255 + rng.usize(4)).map(|_| blank_page()).collect();
         }
-        for p in c.pages.iter_mut() {
-            p.fonts.truncate(1);
-            p.gs.truncate(1);
-            // operations may only name what is left
-            let fonts = p.fonts.clone();
-            let gs = p.gs.clone();
-            p.ops = gen_ops(&mut rng, &fonts, &gs);
+        let built = build(&c.pages, &c.info, c.cached);
+        // the order of the entries inside /Font and /ExtGState of every resources object, as written
+        let mut orders: BTreeMap<usize, Vec<(String, Vec<String>)>> = BTreeMap::new();
+        if let Ok(bytes) = &built {
+            let (objs, _) = objects_in(bytes, 9.min(bytes.len()), bytes.len());
+            let n = c.pages.len() as u64;
+            for k in 0..c.pages.len() {
+                if let Some(o) = objs.iter().find(|o| o.id == n + 2 + 2 * k as u64) {
+                    if let PVal::Dict(entries) = &o.val {
+                        let mut ord = vec![];
+                        for name in ["Font", "ExtGState"] {
+                            if let Some((_, PVal::Dict(sub))) = entries.iter().find(|(n, _)| n == name) {
+                                ord.push((name.to_string(), sub.iter().map(|(n, _)| n.clone()).collect()));
+                            }
+                        }
+                        orders.insert(k, ord);
+                    }
+                }
+            }
         }
-        let r = catch_unwind(AssertUnwindSafe(|| bytes_request(&c.pages, &c.info)));
+        let many = c.pages.iter().any(|p| p.fonts.len() > 1 || p.gs.len() > 1);
+        st.count(if many { "resources=several fonts or graphics states on a page" } else { "resources=at most one each" });
+        let r = catch_unwind(AssertUnwindSafe(|| bytes_request(&c.pages, &c.info, &orders)));
         let rq = match r {
             Ok(Ok(rq)) => rq,
             Ok(Err(e)) => {
@@ -950,7 +986,7 @@ fn bytes_stream(driver: &Driver, seed: u64, thorough: bool, replay: Option<&Valu
                 continue;
             }
         };
-        let imp = match build(&c.pages, &c.info, c.cached) {
+        let imp = match built {
             Ok(bytes) => format!("ok/{}", crate::driver::hex(&bytes)),
             Err(e) if e.starts_with("panic") => "panic".to_string(),
             Err(_) => "err".to_string(),
